@@ -31,12 +31,14 @@ package main
 
 import (
 	"bytes"
+	"crypto/sha1"
 	"fmt"
 	"os"
 	"os/exec"
 	"reflect"
 	"regexp"
 	"sort"
+	"strconv"
 	"strings"
 	"time"
 
@@ -165,6 +167,9 @@ func probe() string {
 	err := intp.ExecuteString("1 2 add 3 mul [ 1 2 ] length StandardEncoding 65 get /CIDInit /ProcSet findresource /begincmap known errordict /typecheck known { 1 (a) add } exec")
 	sb.WriteString(pscmp.Canon(opTable, intp) + fmt.Sprint(err))
 	intp = postscript.NewInterpreter()
+	err = intp.ExecuteString("/p { 2 3 add } bind def /add { mul } def p /q { 4 5 sub exch } bind def /sub 7 def 1 q /r { { 6 7 mul } exec } bind def r matrix 0 get << /a 1 >> << /b 2 >> eq")
+	sb.WriteString(pscmp.Canon(opTable, intp) + fmt.Sprint(err))
+	intp = postscript.NewInterpreter()
 	intp.MaxOps = 60
 	err = intp.ExecuteString("/k 0 def { /k k 1 add def } loop")
 	fmt.Fprintf(&sb, "budget: %v is-sentinel=%v k=%v ", err, err == postscript.ErrExecutionLimitExceeded, intp.UserDict["k"])
@@ -258,6 +263,7 @@ func hostilePrograms() []hostile {
 		psHostile("defineresource CIDFont", "/C 1 dict /CIDFont defineresource pop", 0),
 		psHostile("cmap defined", "/CIDInit /ProcSet findresource begin 12 dict begin begincmap /CMapName /H def 1 begincodespacerange <00> <ff> endcodespacerange endcmap CMapName currentdict /CMap defineresource pop end end", 0),
 		psHostile("cmap block left open", "/CIDInit /ProcSet findresource begin 12 dict begin begincmap 2 begincidchar <00> 1", 0),
+		psHostile("bind after operators were replaced", "systemdict /add {sub} put systemdict /sub 7 put userdict /mul {pop} put /p {1 add 2 sub 3 mul exch} bind def {1 add} bind pop", 0),
 		psHostile("bind systemdict procedures", "/p {add sub mul StandardEncoding} bind def /add 1 def p", 0),
 		psHostile("fails half-way", "systemdict /sub 1 put StandardEncoding 1 /x put 1 (a) add systemdict /mul 2 put", 0),
 		psHostile("hits the budget", "StandardEncoding 2 /y put userdict /k 1 put {} loop", 200),
@@ -820,9 +826,142 @@ func raceFamily() mc.Family {
 	}
 }
 
+// firstInProcessFamily: whatever the library sets up on first use must not be
+// taken from the instance that happens to come first.  Each item is a child
+// process whose very first library call is one hostile program (or history
+// operation); the probe that follows must read exactly as in a child process
+// that runs nothing before it.
+func firstInProcessFamily(budget time.Duration) mc.Family {
+	hs := hostilePrograms()
+	var ref string
+	run := func(h int) (string, error) {
+		exe, err := os.Executable()
+		if err != nil {
+			return "", err
+		}
+		out, err := exec.Command(exe, "-hostilefirst", strconv.Itoa(h)).Output()
+		return string(out), err
+	}
+	return mc.Family{
+		Name: "hostile-program-first-in-a-fresh-process", Items: len(hs), Budget: budget,
+		Rule: fmt.Sprintf("item = one of the %d hostile programs / histories, run as the very first library call of a child process (`c18 -hostilefirst i`), followed by the probe: the probe's observations (hash) must equal those of a child process that runs only the probe; non-trivial = all", len(hs)),
+		Body: func(c *mc.Ctx, item int) mc.Verdict {
+			if ref == "" {
+				r, err := run(-1)
+				if err != nil {
+					return mc.Fail("C18:harness:first-in-process-reference", err.Error())
+				}
+				ref = r
+			}
+			got, err := run(item)
+			c.Step()
+			what := "hostile program `" + hs[item].name + "` as the first library call of a process, then the probe"
+			if err != nil {
+				return mc.Fail("C18:G7:child-died", what+": "+err.Error())
+			}
+			if got != ref {
+				v := mc.Fail("C18:G7:probe-differs-after-hostile-first-use", what+": the probe reads differently from a process that runs only the probe ("+strings.TrimSpace(got)+" / "+strings.TrimSpace(ref)+")")
+				v.Render = what
+				return v
+			}
+			return mc.Pass("probe-unchanged", true)
+		},
+		Describe: func(i int) string { return hs[i].name },
+	}
+}
+
+// argumentsFamily: what a caller passes in may be shared between goroutines (one
+// options value, one font, one metrics value used by several writers at once);
+// that is only safe if the functions do not write to their arguments.  Every
+// argument is dumped before and after the call.
+func argumentsFamily(budget time.Duration) mc.Family {
+	type call struct {
+		name string
+		run  func() (before, after string)
+	}
+	var calls []call
+	for _, format := range append([]type1.FileFormat{0}, corpus.Formats...) {
+		format := format
+		calls = append(calls, call{fmt.Sprintf("Font.Write with &WriterOptions{Format: %d}", format), func() (string, string) {
+			f, opt := corpus.SampleFont(), &type1.WriterOptions{Format: format}
+			before := observe.Dump(f) + observe.Dump(opt)
+			f.Write(&bytes.Buffer{}, opt)
+			return before, observe.Dump(f) + observe.Dump(opt)
+		}})
+	}
+	calls = append(calls,
+		call{"Font.Write of a font whose encoding is the exported standard table", func() (string, string) {
+			f := holeFont(false)
+			f.Encoding = psenc.StandardEncoding[:]
+			before := observe.Dump(f) + fmt.Sprint(psenc.StandardEncoding)
+			f.Write(&bytes.Buffer{}, &type1.WriterOptions{})
+			f.WritePDF(&bytes.Buffer{})
+			return before, observe.Dump(f) + fmt.Sprint(psenc.StandardEncoding)
+		}},
+		call{"Font.WritePDF and the query methods", func() (string, string) {
+			f := corpus.SampleFont()
+			before := observe.Dump(f)
+			f.WritePDF(&bytes.Buffer{})
+			f.GlyphList()
+			f.FontBBox()
+			f.FontBBoxPDF()
+			f.WidthsMapPDF()
+			f.BuiltinEncoding()
+			return before, observe.Dump(f)
+		}},
+		call{"Metrics.Write and the query methods", func() (string, string) {
+			m := corpus.SampleMetrics()
+			before := observe.Dump(m)
+			m.Write(&bytes.Buffer{})
+			m.GlyphList()
+			m.FontBBoxPDF()
+			m.GlyphWidthPDF("A")
+			return before, observe.Dump(m)
+		}},
+		call{"readers given a byte slice", func() (string, string) {
+			data := append([]byte{}, corpus.Fonts()[0].Data...)
+			cm := append([]byte{}, corpus.CMaps()[0].Data...)
+			before := string(data) + string(cm)
+			type1.Read(bytes.NewReader(data))
+			postscript.ReadCMap(bytes.NewReader(cm))
+			return before, string(data) + string(cm)
+		}},
+	)
+	return mc.Family{
+		Name: "arguments-are-not-written-to", Items: len(calls), Budget: budget,
+		Rule: fmt.Sprintf("%d calls (Font.Write with a caller's options value in every format incl. the zero value, WritePDF, the query methods, Metrics.Write, the readers): everything reachable from the arguments is dumped before and after the call and must be unchanged (a value that is only read may be shared by any number of goroutines); non-trivial = all", len(calls)),
+		Body: func(c *mc.Ctx, item int) mc.Verdict {
+			before, after := calls[item].run()
+			c.Step()
+			if before != after {
+				v := mc.Fail("C18:arguments:written-to", calls[item].name+": the call changed a value passed to it: "+firstDiff(before, after))
+				v.Render = calls[item].name
+				return v
+			}
+			return mc.Pass("unchanged", true)
+		},
+		Describe: func(i int) string { return calls[i].name },
+	}
+}
+
+func hostileFirstChild(args []string) {
+	h, _ := strconv.Atoi(args[0])
+	if h >= 0 {
+		func() {
+			defer func() { recover() }()
+			hostilePrograms()[h].run()
+		}()
+	}
+	fmt.Printf("%x\n", sha1.Sum([]byte(probe())))
+}
+
 func main() {
 	if len(os.Args) > 1 && os.Args[1] == "-coldpair" {
 		coldChild(os.Args[2:])
+		return
+	}
+	if len(os.Args) > 1 && os.Args[1] == "-hostilefirst" {
+		hostileFirstChild(os.Args[2:])
 		return
 	}
 	mc.Main(mc.Program{
@@ -841,7 +980,7 @@ func main() {
 				budget = 25 * time.Minute
 				length, preempt, nOps = 3, 3, len(nameOps)
 			}
-			return []mc.Family{historiesFamily(length, budget), lazyInitFamily(preempt, nOps, budget), overlapFamily(preempt, tier == "thorough", budget), coldFamily(budget), raceFamily()}
+			return []mc.Family{historiesFamily(length, budget), lazyInitFamily(preempt, nOps, budget), overlapFamily(preempt, tier == "thorough", budget), coldFamily(budget), firstInProcessFamily(budget), argumentsFamily(budget), raceFamily()}
 		},
 	})
 }
